@@ -170,8 +170,36 @@ func VerifE01Check() {
 			ContextualTuples:     ctxTuples,
 			Consistency:          consistency,
 		})
-		_, _ = checker.ResolveCheck(ctx, preq)
+		pctx := ctx
+		inval := vt.ParamInt("inval", 0) == 1
+		if inval {
+			// C11: the earlier request was answered BEFORE a write - the store it saw differs from the current one
+			// in one tuple (solver-chosen) - and an invalidation run that started after the write has completed:
+			// the request below carries its time. Nothing cached before may be used, top level or sub-problem.
+			st0 := *st
+			st0.P = append([]bool(nil), st.P...)
+			fi := vt.ParamInt("written", -1) // a job may pin which tuple the write touched
+			if fi < 0 || fi >= len(st0.P) {
+				fi = vt.Choose("written", len(st0.P))
+			}
+			st0.P[fi] = vt.Fork(!st0.P[fi]) // decided here, like the presence bits themselves
+			vt.Event("store seen by the prior check differs in candidate p" + strconv.Itoa(fi))
+			pctx = storage.ContextWithRelationshipTupleReader(ctx, &vtsem.Reader{S: &st0})
+		}
+		_, _ = checker.ResolveCheck(pctx, preq)
 		vp.nextRound()
+		if inval {
+			req, rerr = NewResolveCheckRequest(ResolveCheckRequestParams{
+				StoreID:                   "01HVMMBCMGZNT3SED4Z17ECXCB",
+				AuthorizationModelID:      m.GetId(),
+				TupleKey:                  tuple.NewTupleKey(rq.obj, rq.rel, rq.user),
+				Context:                   reqCtx,
+				ContextualTuples:          ctxTuples,
+				Consistency:               consistency,
+				LastCacheInvalidationTime: time.Now(),
+			})
+			vt.Assert(rerr == nil, "NewResolveCheckRequest failed")
+		}
 	}
 	if cm := vt.ParamInt("cancel", 0); cm > 0 {
 		// C20: the request context is cancelled before (1) or while (2) the engine runs. The call must come
@@ -199,7 +227,14 @@ func VerifE01Check() {
 	if qc != nil && len(qc.ks) > 0 {
 		vt.Reach("query-cache-warm")
 	}
-	resp, cerr := checker.ResolveCheck(ctx, req)
+	var resp *ResolveCheckResponse
+	var cerr error
+	if vt.ParamInt("inval", 0) == 1 {
+		// comparisons of cache-entry times with the invalidation time decide between hit and miss: fork on them
+		vt.ForkAll(func() { resp, cerr = checker.ResolveCheck(ctx, req) })
+	} else {
+		resp, cerr = checker.ResolveCheck(ctx, req)
+	}
 
 	want := vtsem.NewOracle(st, rq.user, vt.ParamInt("rounds", 0)).Holds(rq.obj, rq.rel)
 	vt.Reach("decided")
